@@ -25,21 +25,25 @@ CONSTANTS
     MinFit,       \* fewest rows a fit accepts (k of KNearest, n_clusters of Clusters)
     MinArms,      \* remove_arm is explored while more than this many arms remain
     Ops, RejectKinds, QueryRows, Quantiles,
+    EpochOnAdd,   \* TRUE when add_arm installs a (new) Thompson binarizer: it converts the rows presented AFTER it only
     Dev
 
-VARIABLES arms, fitted, rows, warm, last
-vars == <<arms, fitted, rows, warm, last>>
-modelVars == <<arms, fitted, rows, warm>>
+VARIABLES arms, fitted, rows, warm, last,
+          epoch     \* -1: no binarizer has been installed by add_arm; else how many of `rows` were presented before the
+                    \* latest such add_arm (those rows keep the conversion that was in force when they were presented)
+vars == <<arms, fitted, rows, warm, epoch, last>>
+modelVars == <<arms, fitted, rows, warm, epoch>>
 
 RangeS(s) == {s[i] : i \in DOMAIN s}
 Slice(o, k) == [i \in 1..k |-> o + i]
 
-Init == /\ arms = InitArms /\ fitted = FALSE /\ rows = <<>> /\ warm = {} /\ last = [op |-> "init"]
+Init == /\ arms = InitArms /\ fitted = FALSE /\ rows = <<>> /\ warm = {} /\ epoch = -1 /\ last = [op |-> "init"]
 
 DoFit(o, k) ==
     /\ fitted' = TRUE /\ arms' = arms
     /\ rows' = (IF "FitKeepsRows" \in Dev THEN rows \o Slice(o, k) ELSE Slice(o, k))
     /\ warm' = {}
+    /\ epoch' = (IF epoch = -1 THEN -1 ELSE 0)      \* a fit converts all its rows with the binarizer in force
 
 Fit(o, k) ==
     /\ "fit" \in Ops /\ o \in Offsets \cup WideOffsets /\ k \in MinFit..MaxChunk
@@ -55,17 +59,18 @@ PartialFit(k) ==
        THEN /\ k <= NRows /\ k >= MinFit /\ DoFit(0, k) /\ last' = [op |-> "partial_fit", rows |-> Slice(0, k)]
        ELSE /\ (IF NextRow >= 100 THEN NextRow + k <= 100 + NRows ELSE NextRow + k <= NRows) /\ Len(rows) + k <= MaxHist
             /\ rows' = rows \o Slice(NextRow, k)
-            /\ UNCHANGED <<arms, fitted, warm>>
+            /\ UNCHANGED <<arms, fitted, warm, epoch>>
             /\ last' = [op |-> "partial_fit", rows |-> Slice(NextRow, k)]
 
 AddArm(a) ==
     /\ "add_arm" \in Ops /\ a \in Labels \ RangeS(arms)
     /\ arms' = Append(arms, a) /\ UNCHANGED <<fitted, rows, warm>>
+    /\ epoch' = (IF EpochOnAdd THEN Len(rows) ELSE epoch)
     /\ last' = [op |-> "add_arm", arm |-> a]
 
 RemoveArm(a) ==
     /\ "remove_arm" \in Ops /\ a \in RangeS(arms) /\ Len(arms) > MinArms
-    /\ arms' = SelectSeq(arms, LAMBDA x : x # a) /\ UNCHANGED <<fitted, rows, warm>>
+    /\ arms' = SelectSeq(arms, LAMBDA x : x # a) /\ UNCHANGED <<fitted, rows, warm, epoch>>
     /\ last' = [op |-> "remove_arm", arm |-> a]
 
 (* which arms become warm depends on the policy's features: the binding reports it, the abstract state only
@@ -73,7 +78,7 @@ RemoveArm(a) ==
 WarmStart(q) ==
     /\ "warm_start" \in Ops /\ q \in Quantiles
     /\ warm' = warm \cup {q}
-    /\ UNCHANGED <<arms, fitted, rows>>
+    /\ UNCHANGED <<arms, fitted, rows, epoch>>
     /\ last' = [op |-> "warm_start", q |-> q]
 
 Query(op, mm) ==
@@ -98,13 +103,14 @@ Next ==
 
 Spec == Init /\ [][Next]_vars
 
-StateRec == [arms |-> arms, fitted |-> fitted, rows |-> rows, warm |-> warm]
-View  == <<arms, fitted, rows, warm>>
+StateRec == [arms |-> arms, fitted |-> fitted, rows |-> rows, warm |-> warm, epoch |-> epoch]
+View  == <<arms, fitted, rows, warm, epoch>>
 Bound == Len(rows) <= MaxHist /\ TLCGet("level") <= MaxDepth
 EmitOK == PrintT(ToJson([s |-> StateRec, l |-> last', t |-> StateRec']))
 
 (* C06: the rows presented since the last fit are a contiguous run of the data set, whatever the chunking *)
 Inv_C06_Contiguous == \A i \in 1..(Len(rows) - 1) : rows[i + 1] = rows[i] + 1
+Inv_C14_Epoch == epoch \in -1..Len(rows) /\ (~EpochOnAdd => epoch = -1)
 Inv_C08_Arms == \A i, j \in DOMAIN arms : i # j => arms[i] # arms[j]
 Prop_C07_FitIsFresh == [][last'.op = "fit" => rows' = last'.rows /\ warm' = {}]_vars
 Prop_C10_ReadOnly == [][last'.op \in {"predict", "predict_expectations"} => UNCHANGED modelVars]_vars
